@@ -1,17 +1,25 @@
 (* C15 -- Search queries obey their documented logic on every annotation.
    Property theorems only; each closed with [exact] and followed by
-   Print Assumptions.  [matches e root] models bool(QueryHandler.search(..)),
-   [compile q] models QueryHandler(q), [search q root] their composition. *)
+   Print Assumptions.
+
+   [fx : bool] selects the code that is modelled: [true] = the current code
+   (after the three fix: commits: has_same_tags by identity, non-operand tokens
+   rejected, RecursionError turned into ValueError), [false] = the code before
+   them.  [limit] = the nesting depth available to the recursive-descent parser
+   (only used when fx = true).  [matches fx e root] models
+   bool(QueryHandler.search(..)), [compile fx limit q] models QueryHandler(q),
+   [search] their composition.  Theorems quantified over [fx] hold of both. *)
 From Coq Require Import List NArith Bool Permutation.
 From HV Require Import Base.Res Base.Str Model.Query Model.QueryParse
-  Proofs.QueryProofs Proofs.QueryParseProofs.
+  Proofs.QueryProofs Proofs.QueryParseProofs Proofs.QueryBalanceProofs Proofs.QuerySiblingProofs
+  Proofs.QueryWitness.
 Import ListNotations.
 
 (* A search term (bare, quoted / with slash, trailing star) matches exactly when
    some tag of the annotation matches in the mode the term selects ... *)
-Theorem C15_term_matches : forall tok mode text i ch,
+Theorem C15_term_matches : forall fx tok mode text i ch,
   term_info tok = (mode, false, text) ->
-  matches (ETerm tok) (Group i ch) =
+  matches fx (ETerm tok) (Group i ch) =
   existsb (fun tc => tag_matches mode text (fst tc)) (all_tags (Group i ch)).
 Proof. exact term_matches. Qed.
 Print Assumptions C15_term_matches.
@@ -26,73 +34,86 @@ Proof. exact tag_matches_modes. Qed.
 Print Assumptions C15_term_modes.
 
 (* 'A || B' matches iff A or B does: all annotations, all A, B. *)
-Theorem C15_or_iff : forall t a b root,
-  matches (EOr t a b) root = matches a root || matches b root.
+Theorem C15_or_iff : forall fx t a b root,
+  matches fx (EOr t a b) root = matches fx a root || matches fx b root.
 Proof. exact or_iff. Qed.
 Print Assumptions C15_or_iff.
 
 (* 'A && B' matches exactly when A and B have results on the same group that
    use distinct children of it ("via distinct tags"). *)
-Theorem C15_and_iff_distinct : forall t a b root,
-  matches (EAnd t a b) root = true <->
-  exists r o, In r (handle a false root) /\ In o (handle b false root) /\
+Theorem C15_and_iff_distinct : forall fx t a b root,
+  matches fx (EAnd t a b) root = true <->
+  exists r o, In r (handle fx a false root) /\ In o (handle fx b false root) /\
               gid r = gid o /\ overlap (sr_tags r) (sr_tags o) = false.
 Proof. exact and_iff_distinct. Qed.
 Print Assumptions C15_and_iff_distinct.
 
 (* 'A && B' is symmetric (as a match verdict; both spellings "&&" and ","). *)
-Theorem C15_and_symmetric : forall t t' a b root,
-  matches (EAnd t a b) root = matches (EAnd t' b a) root.
+Theorem C15_and_symmetric : forall fx t t' a b root,
+  matches fx (EAnd t a b) root = matches fx (EAnd t' b a) root.
 Proof. exact and_symmetric. Qed.
 Print Assumptions C15_and_symmetric.
 
 (* 'A && B' matches only if both do. *)
-Theorem C15_and_implies_both : forall t a b root,
-  matches (EAnd t a b) root = true -> matches a root = true /\ matches b root = true.
+Theorem C15_and_implies_both : forall fx t a b root,
+  matches fx (EAnd t a b) root = true -> matches fx a root = true /\ matches fx b root = true.
 Proof. exact and_implies_both. Qed.
 Print Assumptions C15_and_implies_both.
 
-(* 'A && B' is associative (as a match verdict).
-   FULL STATEMENT: forall a b c root,
-     matches (EAnd t1 (EAnd t2 a b) c) root = matches (EAnd t3 a (EAnd t4 b c)) root.
-   Proved under the hypothesis that the duplicate filter never identifies
-   results of two distinct groups (no two distinct groups of the annotation
-   compare equal); without it the filter may drop results, see C15-F1. *)
-Theorem C15_and_assoc_partial : forall t1 t2 t3 t4 a b c i ch,
+(* 'A && B' is associative (as a match verdict): all annotations, all A, B, C. *)
+Theorem C15_and_assoc : forall t1 t2 t3 t4 a b c i ch,
+  matches true (EAnd t1 (EAnd t2 a b) c) (Group i ch) = matches true (EAnd t3 a (EAnd t4 b c)) (Group i ch).
+Proof. exact and_assoc_fixed. Qed.
+Print Assumptions C15_and_assoc.
+
+(* record: before the fix: commit associativity needed the hypothesis that no
+   two distinct groups of the annotation compare equal *)
+Theorem C15_and_assoc_prefix_partial : forall t1 t2 t3 t4 a b c i ch,
   distinct_groups (Group i ch) ->
-  matches (EAnd t1 (EAnd t2 a b) c) (Group i ch) = matches (EAnd t3 a (EAnd t4 b c)) (Group i ch).
-Proof. exact and_assoc_partial. Qed.
-Print Assumptions C15_and_assoc_partial.
+  matches false (EAnd t1 (EAnd t2 a b) c) (Group i ch) = matches false (EAnd t3 a (EAnd t4 b c)) (Group i ch).
+Proof. exact and_assoc_prefix. Qed.
+Print Assumptions C15_and_assoc_prefix_partial.
 
 (* Every result of every expression (all nine expression classes, both modes)
    refers to a group that occurs in the searched annotation. *)
-Theorem C15_results_in_annotation : forall i ch e ex r,
-  In r (handle e ex (Group i ch)) -> In (sr_chain r) (all_groups (Group i ch)).
+Theorem C15_results_in_annotation : forall fx i ch e ex r,
+  In r (handle fx e ex (Group i ch)) -> In (sr_chain r) (all_groups (Group i ch)).
 Proof. exact handle_valid. Qed.
 Print Assumptions C15_results_in_annotation.
 
-(* The match result is unchanged by reordering siblings (at any level).
-   FULL STATEMENT: forall q a b, sperm a b -> search q a = search q b.
-   PARTIAL: proved for every query built from search terms (bare, quoted,
-   slash, star) with ||, on every annotation and every nested reordering.
-   Missing: &&, ~, wildcards and the group operators -- for these the full
-   statement is false (next theorem); a positive theorem would need the
-   hypothesis of C15_and_assoc_partial on both annotations. *)
-Theorem C15_sibling_order_partial : forall e, term_or_query e = true ->
-  forall a b, sperm a b -> is_tag a = false -> matches e a = matches e b.
-Proof. exact sibling_order_terms_or. Qed.
-Print Assumptions C15_sibling_order_partial.
+(* The match result is unchanged by reordering siblings, at any level, for EVERY
+   expression (terms in all modes, at-sign terms, wildcards, &&, ||, ~, [ ], { },
+   {:}, {: }).  [uniq a]: the group identities of the annotation are pairwise
+   different (true of object identity). *)
+Theorem C15_sibling_order_invariant : forall a b,
+  sperm a b -> is_tag a = false -> uniq a -> forall e, matches true e a = matches true e b.
+Proof. exact sibling_order_matches. Qed.
+Print Assumptions C15_sibling_order_invariant.
 
-(* It is FALSE of the code in general: witness of finding C15-F1. *)
-Theorem C15_sibling_order_refuted :
-  exists q a b, sperm a b /\ search q a = Ok false /\ search q b = Ok true.
+(* the same for query texts *)
+Theorem C15_sibling_order_search : forall limit q a b,
+  sperm a b -> is_tag a = false -> uniq a -> search true limit q a = search true limit q b.
+Proof. exact sibling_order_search. Qed.
+Print Assumptions C15_sibling_order_search.
+
+(* record: before the fix: commit the invariance was provable only for queries
+   built from search terms with || (holds of both codes) ... *)
+Theorem C15_sibling_order_prefix_partial : forall fx e, term_or_query e = true ->
+  forall a b, sperm a b -> is_tag a = false -> matches fx e a = matches fx e b.
+Proof. exact sibling_order_terms_or. Qed.
+Print Assumptions C15_sibling_order_prefix_partial.
+
+(* ... and was FALSE in general: record of the repaired defect (finding C15-F1). *)
+Theorem C15_sibling_order_prefix_refuted :
+  exists q a b, sperm a b /\ uniq a /\ search false 0 q a = Ok false /\ search false 0 q b = Ok true.
 Proof. exact sibling_order_refuted. Qed.
-Print Assumptions C15_sibling_order_refuted.
+Print Assumptions C15_sibling_order_prefix_refuted.
 
 (* Any query text either compiles or is rejected with ValueError -- nothing
-   else, and the parser's fuel never runs out. *)
-Theorem C15_compile_total : forall q : str,
-  (exists e, compile q = Ok e) \/ compile q = Exn ValueError.
+   else: whatever nesting depth is available to the parser (fx = true), resp.
+   the fuel never runs out (fx = false). *)
+Theorem C15_compile_total : forall fx limit (q : str),
+  (exists e, compile fx limit q = Ok e) \/ compile fx limit q = Exn ValueError.
 Proof. exact compile_total. Qed.
 Print Assumptions C15_compile_total.
 
@@ -100,26 +121,38 @@ Print Assumptions C15_compile_total.
    a function of (query, annotation) alone: the model has no state, so repeated
    searches agree and the annotation is not altered (checked on the
    implementation by the harness). *)
-Theorem C15_search_total : forall (q : str) (root : node),
-  (exists b, search q root = Ok b) \/ search q root = Exn ValueError.
+Theorem C15_search_total : forall fx limit (q : str) (root : node),
+  (exists b, search fx limit q root = Ok b) \/ search fx limit q root = Exn ValueError.
 Proof. exact search_total. Qed.
 Print Assumptions C15_search_total.
 
-(* Unbalanced grouping symbols are always rejected.
-   FULL STATEMENT: forall q, balanced_groupers q = false -> compile q = Exn ValueError.
-   It is FALSE of the code: a closing symbol where an operand is expected
-   becomes a search term (finding C15-F2). *)
-Theorem C15_unbalanced_rejected_refuted :
-  exists q, balanced_groupers q = false /\ exists e, compile q = Ok e.
+(* Unbalanced grouping symbols are always rejected (every text, every depth). *)
+Theorem C15_unbalanced_rejected : forall limit q,
+  balanced_groupers q = false -> compile true limit q = Exn ValueError.
+Proof. exact unbalanced_rejected. Qed.
+Print Assumptions C15_unbalanced_rejected.
+
+(* record of the repaired defect (finding C15-F2): before the fix: commit a
+   closing symbol where an operand is expected became a search term *)
+Theorem C15_unbalanced_rejected_prefix_refuted :
+  exists q, balanced_groupers q = false /\ exists e, compile false 0 q = Ok e.
 Proof. exact unbalanced_rejected_refuted. Qed.
-Print Assumptions C15_unbalanced_rejected_refuted.
+Print Assumptions C15_unbalanced_rejected_prefix_refuted.
 
 (* non-vacuity: a real query compiles and matches a nested annotation that meets
-   [distinct_groups]; the unbalanced regression examples (missing closers, extra
-   closer after a complete query) are rejected *)
+   [uniq] / [distinct_groups] and has a non-trivial reordering; the unbalanced
+   regression examples (stray closers, missing closers) are rejected *)
 Example C15_nonvacuous :
-  search w_query w_ann2 = Ok true /\ distinct_groups w_ann2 /\
-  (exists e, compile w_query_or = Ok e /\ term_or_query e = true /\ matches e w_ann1 = true) /\
+  search true 100 w_query w_ann2 = Ok true /\ distinct_groups w_ann2 /\ uniq w_ann1 /\ sperm w_ann1 w_ann2 /\
+  (exists e, compile true 100 w_query_or = Ok e /\ term_or_query e = true /\ matches true e w_ann1 = true) /\
   forallb (fun q => negb (balanced_groupers q) &&
-                    match compile q with Exn ValueError => true | _ => false end) unbalanced_examples = true.
+                    match compile true 100 q with Exn ValueError => true | _ => false end) unbalanced_examples = true.
 Proof. exact nonvacuous. Qed.
+
+(* the old sibling-order witness agrees on the repaired code; a nesting deeper
+   than the available depth is a ValueError (finding C15-F3 repaired) *)
+Example C15_repaired_witnesses :
+  (search true 100 w_query w_ann1 = Ok true /\ search true 100 w_query w_ann2 = Ok true) /\
+  (compile true 2 [ch_open; ch_open; ch_open; 97%N; ch_close; ch_close; ch_close] = Exn ValueError /\
+   exists e, compile true 4 [ch_open; ch_open; ch_open; 97%N; ch_close; ch_close; ch_close] = Ok e).
+Proof. exact (conj sibling_witness_fixed depth_exceeded_valueerror). Qed.
